@@ -69,7 +69,7 @@ structure Srv where
   slot : TRef → Slot := fun t => if t = .K then .present else if t = .R then .requested else .absent
   /-- parked protocol messages per tree; the slot of R is `requested` because one message for a
   fresh run on R is parked -/
-  parked : TRef → Nat := fun t => if t = .R then 1 else 0
+  parked : TRef → List (Frm × Bool) := fun t => if t = .R then [(.member, true)] else []
   /-- listed instances: the running one, the fresh one per tree -/
   run : Bool := false
   doneMark : Bool := false
@@ -124,10 +124,12 @@ def deliver (s : Srv) (to : Tok) (frm : Frm) (m3 : Bool) : Out × Srv :=
 /-- `RegisterTree` of a received tree: store it and flush what was parked for it (the harness
 parks only `fresh t` messages from a member) -/
 def storeAndFlush (s : Srv) (t : TRef) : Srv :=
-  let n := s.parked t
-  { s with slot := upd s.slot t .present, parked := upd s.parked t 0,
-           fresh := if n = 0 then s.fresh else upd s.fresh t true,
-           handed := s.handed + n, delivered := s.delivered + n }
+  let l := s.parked t
+  let h := (l.filter (fun x => x.2)).length                          -- handed to the (new) instance
+  let d := (l.filter (fun x => x.2 && x.1 == .member)).length        -- accepted by the sender check
+  { s with slot := upd s.slot t .present, parked := upd s.parked t [],
+           fresh := if l.isEmpty then s.fresh else upd s.fresh t true,
+           handed := s.handed + h, delivered := s.delivered + d }
 
 /-- `handleSendTree` -/
 def sendTree (s : Srv) (tm : Option TM) (ro : Option Ro) : Out × Srv :=
@@ -156,7 +158,7 @@ def process (s : Srv) : Env → Out × Srv
       if s.slot t = .present then deliver s to frm m3
       else
         -- `requestTree`: park, re-check, register and ask the peer
-        let s1 := { s with parked := upd s.parked t (s.parked t + 1) }
+        let s1 := { s with parked := upd s.parked t (s.parked t ++ [(frm, m3)]) }
         if s1.slot t = .absent then (.ok, { s1 with slot := upd s1.slot t .requested })
         else (.ok, s1)
   | .reqTree t _ =>
@@ -243,7 +245,7 @@ def showSlot : Slot → String
 def obs (o : Out) (x : Srv) : String :=
   if o = .panic then "panic" else
   let live := (if x.run then 1 else 0) + (if x.doneLive then 1 else 0) + (if x.fresh .K then 1 else 0) + (if x.fresh .R then 1 else 0) + (if x.fresh .U then 1 else 0)
-  s!"K={showSlot (x.slot .K)} R={showSlot (x.slot .R)} U={showSlot (x.slot .U)} Z={showSlot (x.slot .Z)} parked={x.parked .K + x.parked .R + x.parked .U + x.parked .Z} live={live} handed={x.handed} delivered={x.delivered} replies={x.replies} lock={x.treeLock}"
+  s!"K={showSlot (x.slot .K)} R={showSlot (x.slot .R)} U={showSlot (x.slot .U)} Z={showSlot (x.slot .Z)} parked={(x.parked .K).length + (x.parked .R).length + (x.parked .U).length + (x.parked .Z).length} live={live} handed={x.handed} delivered={x.delivered} replies={x.replies} lock={x.treeLock}"
 
 def parse : List String → Option Env
   | ["proto", t, f, "2"] => do pure (.proto (← tok t) (← frm f) true false)
